@@ -240,6 +240,9 @@ func (k *kptrace) cont(pid int, sig int) error {
 		sym.Assert(sig == p.stopSig, "a signal-delivery stop must be resumed with the same signal")
 	case stopSeccomp:
 		sym.Assert(sig == 0, "an event stop must be resumed without a signal")
+		if k.execved && !p.sawVerdict && !k.injected {
+			sym.Assert(false, "a trapped syscall is resumed although the handler was never consulted about it")
+		}
 		if k.execved && p.sawVerdict {
 			switch p.verdict {
 			case TraceBan:
